@@ -63,7 +63,7 @@ inductive Res (α : Type)
   | ok (a : α)
   | err (e : Err)
   | panic
-deriving Repr
+deriving Repr, DecidableEq
 
 /-- One intercepted CPI: the System instruction and the signer seed sets handed to `invoke_signed`. -/
 structure Cpi where
@@ -146,33 +146,37 @@ def AcctType.W (ty : AcctType) : Nat := ty.disc.length
 
 def allZero (l : List Nat) : Bool := l.all (· == 0)
 
-/-- `init_account::<IF_NEEDED>` of `Account<T>` / `BorshAccount<T>`; `enc` = the encoded initial
-value (`INIT_BYTES` / `object_length` = its length). -/
+/-- The part of `init_account` after the if-needed test: `check_writable`, create, write. `enc` =
+the encoded initial value (`INIT_BYTES` / `object_length` = its length). -/
+def initGo (env : Env) (ty : AcctType) (tgt : Key) (f : Funder)
+    (acctSeeds : Option (List (List Nat))) (enc : List Nat) (s : St) : Res Bool × St :=
+  if !env.isWritable tgt then (.err .expectedWritable, s)
+  else
+    match systemCreateAccount env f tgt env.program (ty.W + enc.length) acctSeeds s with
+    | (.ok (), s1) =>
+      match ty.kind with
+      | .zc =>
+        if (s1.w tgt).data.length < ty.W + enc.length then (.err .initFailed, s1)
+        else
+          let a : Acct := { s1.w tgt with data := ty.disc ++ enc ++ (s1.w tgt).data.drop (ty.W + enc.length) }
+          (.ok true, { s1 with w := s1.w.set tgt a })
+      | .borsh =>
+        if (s1.w tgt).data.length < ty.W then (.panic, s1)
+        else
+          let a : Acct := { s1.w tgt with data := ty.disc ++ (s1.w tgt).data.drop ty.W }
+          (.ok true, { s1 with w := s1.w.set tgt a })
+    | (.err e, s1) => (.err e, s1)
+    | (.panic, s1) => (.panic, s1)
+
+/-- `init_account::<IF_NEEDED>` of `Account<T>` / `BorshAccount<T>`. -/
 def initAccount (env : Env) (ty : AcctType) (ifNeeded : Bool) (tgt : Key) (f : Funder)
     (acctSeeds : Option (List (List Nat))) (enc : List Nat) (s : St) : Res Bool × St :=
-  let a := s.w tgt
-  let go : Res Bool × St :=
-    if !env.isWritable tgt then (.err .expectedWritable, s)
-    else
-      let space := ty.W + enc.length
-      match systemCreateAccount env f tgt env.program space acctSeeds s with
-      | (.ok (), s1) =>
-        let d := (s1.w tgt).data
-        match ty.kind with
-        | .zc =>
-          if d.length < space then (.err .initFailed, s1)
-          else (.ok true, { s1 with w := s1.w.set tgt { s1.w tgt with data := ty.disc ++ enc ++ d.drop space } })
-        | .borsh =>
-          if d.length < ty.W then (.panic, s1)
-          else (.ok true, { s1 with w := s1.w.set tgt { s1.w tgt with data := ty.disc ++ d.drop ty.W } })
-      | (.err e, s1) => (.err e, s1)
-      | (.panic, s1) => (.panic, s1)
   if ifNeeded then
-    if a.owner = systemId then go
-    else if a.data.length < ty.W then (.panic, s)
-    else if allZero (a.data.take ty.W) then go
+    if (s.w tgt).owner = systemId then initGo env ty tgt f acctSeeds enc s
+    else if (s.w tgt).data.length < ty.W then (.panic, s)
+    else if allZero ((s.w tgt).data.take ty.W) then initGo env ty tgt f acctSeeds enc s
     else (.ok false, s)
-  else go
+  else initGo env ty tgt f acctSeeds enc s
 
 /-- `ProgramAccount::validate_account_info`: discriminant first, then owner. -/
 def validateAccountInfo (env : Env) (ty : AcctType) (a : Acct) : Except Err Unit :=
